@@ -75,10 +75,14 @@ class G:
         x = self.ref("float")
         if x is not None:
             return x
-        fl = lambda: ("float", r.choice([0.5, 1.5, 2.0, 2.25, 4.0, 10.0]))
+        fl = lambda: ("float", r.choice([0.5, 1.5, 2.0, 2.25, 4.0, 10.0, 1.1, 0.3, 2.7, 0.1]))
         k = r.random()
-        if k < 0.25:
+        if k < 0.2:
             return fl()
+        if k < 0.38:
+            # float base, int literal exponent: whatever routine folds it must be the one the run-time expression uses
+            # (bases that are not dyadic, so that different routines differ in the last digit)
+            return ("pow", ("float", r.choice([1.1, 0.3, 2.7, 0.1, 1.7, 3.3])), ("int", r.randint(3, 12)), "float")
         if k < 0.45:
             return ("bin", "/", self.atom_int(1), self.atom_int(1))
         if k < 0.6:
@@ -136,7 +140,9 @@ class G:
             return ("concat", self.str_atom(), self.str_atom())
         if k < 0.6:
             return ("concat", ("concat", self.str_atom(), ("str", "-")), self.str_atom())
-        idx = lambda: r.choice([("int", r.randint(0, 6)), ("neg", ("int", r.randint(1, 6))), self.atom_int(1)])
+        # indices on both sides of every boundary: in range, just out of range, and far out of range (up to twice the length and beyond)
+        idx = lambda: r.choice([("int", r.randint(0, 6)), ("neg", ("int", r.randint(1, 6))), self.atom_int(1),
+                                ("neg", ("int", r.randint(4, 14))), ("int", r.randint(5, 14))])
         if k < 0.8:
             return ("idx", "str", self.str_atom(), idx())
         a = r.choice([None, idx()])
@@ -483,7 +489,9 @@ def decide_group(g, chk, refv, accepted, rejected, res, run, text):
                     return s
             return s
         cv, fv = conv(cval), conv(fval)
-        if not same_value(cv, fv):
+        # const vs its run-time twin: the property says *exactly* the same - both are printed by the same program, so the texts must
+        # be identical (the comparison with the Python reference below stays tolerant in the last digits)
+        if cval != fval or not same_value(cv, fv):
             run.record(Verdict("violated", "const holds %r, the same expression evaluated in a function gives %r [%s %s]" % (cv, fv, t, shape(e))), case, key=key)
             continue
         if not same_value(cv, want):
